@@ -42,6 +42,7 @@ type Input struct {
 	Kind   string          `json:"kind"` // bundle sxg subset certchain iblock sh-pl sh-ll mice bundleid
 	Bundle *bundlekit.Spec `json:"bundle,omitempty"`
 	Sxg    *sxgkit.Spec    `json:"sxg,omitempty"`
+	Colliding bool         `json:"colliding,omitempty"` // header maps hold two keys differing only in letter case
 	N      int             `json:"n,omitempty"`   // size parameter (entries / attributes / parameters)
 	Tag    uint64          `json:"tag,omitempty"` // content seed
 }
@@ -111,9 +112,18 @@ func build(in *Input, perm uint64) *built {
 		s.Mock = true
 		s.ResHeaders = permuteHeaders(s.ResHeaders, perm)
 		s.ReqHeaders = permuteHeaders(s.ReqHeaders, perm+1)
-		e, sg, err := sxgkit.Build(&s)
+		e := sxgkit.New(&s)
+		if err := e.MiEncodePayload(s.RecordSize); err != nil {
+			panic(err)
+		}
+		sg, err := sxgkit.Signer(&s)
 		if err != nil {
 			panic(err)
+		}
+		if !in.Colliding {
+			if err := e.AddSignatureHeader(sg); err != nil {
+				panic(err)
+			}
 		}
 		b.serializers["Exchange.Write"] = func() ([]byte, error) {
 			var buf bytes.Buffer
@@ -236,6 +246,18 @@ func build(in *Input, perm uint64) *built {
 	default:
 		panic("kind " + in.Kind)
 	}
+	if in.Colliding {
+		for name, f := range b.serializers {
+			f := f
+			b.serializers[name] = func() ([]byte, error) {
+				out, err := f()
+				if err != nil {
+					return []byte("error: " + err.Error()), nil
+				}
+				return out, nil
+			}
+		}
+	}
 	return b
 }
 
@@ -271,6 +293,10 @@ func genInput(t *rapid.T) Input {
 					// several header names so that insertion order matters
 					s.Exchanges[j].Headers = append(s.Exchanges[j].Headers, gen.HeaderKV{Name: "X-One", Values: []string{"1"}}, gen.HeaderKV{Name: "a-two", Values: []string{"2", "3"}})
 				}
+				if len(s.Exchanges) > 0 && rapid.IntRange(0, 5).Draw(t, "bcollide") == 0 {
+					in.Colliding = true
+					s.Exchanges[0].Headers = append(s.Exchanges[0].Headers, gen.HeaderKV{Name: "Link", Values: []string{"<a>"}, Force: true}, gen.HeaderKV{Name: "link", Values: []string{"<b>"}, Force: true}, gen.HeaderKV{Name: "LINK", Values: []string{"<c>"}, Force: true})
+				}
 				in.Bundle = s
 				return in
 			}
@@ -282,6 +308,13 @@ func genInput(t *rapid.T) Input {
 			s.PayloadLen %= 1000
 		}
 		s.ResHeaders = append(s.ResHeaders, gen.HeaderKV{Name: "X-One", Values: []string{"1"}}, gen.HeaderKV{Name: "a-two", Values: []string{"2"}}, gen.HeaderKV{Name: "Zed", Values: []string{"z"}})
+		if rapid.IntRange(0, 4).Draw(t, "collide") == 0 {
+			in.Colliding = true
+			s.ResHeaders = append(s.ResHeaders, gen.HeaderKV{Name: "Link", Values: []string{"<a>"}, Force: true}, gen.HeaderKV{Name: "link", Values: []string{"<b>"}, Force: true}, gen.HeaderKV{Name: "LINK", Values: []string{"<c>"}, Force: true})
+			if s.Version != "1b3" {
+				s.ReqHeaders = append(s.ReqHeaders, gen.HeaderKV{Name: "Accept", Values: []string{"x"}, Force: true}, gen.HeaderKV{Name: "accept", Values: []string{"y"}, Force: true})
+			}
+		}
 		in.Sxg = s
 	}
 	return in
@@ -305,8 +338,14 @@ var permProp = vh.Define("C18", "permutations", func(c PermCase, r *vh.R) {
 			for rep := 0; rep < c.Reps; rep++ {
 				out, err := obj.serializers[name]()
 				if err != nil {
-					r.Failf("serializer-error", "%s failed on a valid input: %v", name, err)
-					return
+					if !c.In.Colliding {
+						r.Failf("serializer-error", "%s failed on a valid input: %v", name, err)
+						return
+					}
+					// header names differing only in letter case: refusing is fine, but the outcome
+					// must be the same on every call
+					out = []byte("error: " + err.Error())
+					r.Class("stable-refusal")
 				}
 				if ref, ok := first[name]; !ok {
 					first[name] = append([]byte{}, out...)
@@ -366,8 +405,11 @@ var histProp = vh.Define("C18", "history", func(c HistCase, r *vh.R) {
 		name := ns[(call%16)%len(ns)]
 		out, err := objs[oi].serializers[name]()
 		if err != nil {
-			r.Failf("serializer-error", "step %d: %s failed: %v", step, name, err)
-			return
+			if !c.Pool[oi].Colliding {
+				r.Failf("serializer-error", "step %d: %s failed: %v", step, name, err)
+				return
+			}
+			out = []byte("error: " + err.Error())
 		}
 		key := fmt.Sprintf("%d/%s", oi, name)
 		if ref, ok := first[key]; !ok {
